@@ -92,4 +92,33 @@ def check (i : In) (o : Out) : Option Why :=
 /-- The spec predicate the driver evaluates on the implementation's trace. -/
 def specOK (i : In) (o : Out) : Bool := (check i o).isNone
 
+/-! ### Hypotheses the theorems are stated under -/
+
+/-- Inode numbers in use are below the allocation counter. -/
+structure WF (s : FS) : Prop where
+  names_lt : ∀ p i, s.names p = some i → i < s.next
+  fds_lt : ∀ fd i off, s.fds fd = some (i, off) → i < s.next
+
+/-- `dest` holds version `v` (`none`: there is no such file), it is synced, and
+no descriptor is open for writing on it — the state of a file between saves. -/
+def Settled (s : FS) (dest : Path) : Option Content → Prop
+  | none => s.names dest = none
+  | some c => ∃ i, s.names dest = some i ∧ s.cache i = c ∧ s.disk i = c ∧ s.dirty i = false ∧
+      ∀ fd off, s.fds fd ≠ some (i, off)
+
+/-- What is known about the names `renameio` invents: the probe files and the
+temporary file are never the destination itself (they are `.<base><digits>`). -/
+def TempNames (pr : Probe) (tmp dest : Path) : Prop :=
+  pr.src ≠ dest ∧ pr.dst ≠ dest ∧ tmp ≠ dest
+
+/-- A syscall that does not name `dest` (and is not an in-place open). -/
+def Sys.safeFor (dest : Path) : Sys → Bool
+  | .creat p _ => p != dest
+  | .openWr _ _ _ => false
+  | .write _ _ => true
+  | .fsync _ => true
+  | .close _ => true
+  | .rename a b => a != dest && b != dest
+  | .unlink a => a != dest
+
 end AGH.C14
